@@ -1232,9 +1232,9 @@ class Table(Vector):
 			Table with joined results
 		"""
 		# Validate cardinality flag early
-		if expect not in ('one_to_one', 'many_to_one', 'one_to_many', 'many_to_many'):
+		if not isinstance(expect, str) or expect not in ('one_to_one', 'many_to_one', 'one_to_many', 'many_to_many'):
 			raise SerifValueError(
-				f"Invalid expect='{expect}'. "
+				f"Invalid expect={_key_text(expect)!r}. "
 				"Must be one of 'one_to_one', 'many_to_one', 'one_to_many', 'many_to_many'."
 			)
 		
@@ -1373,9 +1373,9 @@ class Table(Vector):
 			Table with joined results
 		"""
 		# Validate expectation value early
-		if expect not in ('one_to_one', 'many_to_one', 'one_to_many', 'many_to_many'):
+		if not isinstance(expect, str) or expect not in ('one_to_one', 'many_to_one', 'one_to_many', 'many_to_many'):
 			raise SerifValueError(
-				f"Invalid expect value '{expect}'. "
+				f"Invalid expect value {_key_text(expect)!r}. "
 				"Must be one of 'one_to_one', 'many_to_one', 'one_to_many', 'many_to_many'."
 			)
 		
@@ -1516,9 +1516,9 @@ class Table(Vector):
 			Table with joined results
 		"""
 		# Validate expectation string
-		if expect not in ('one_to_one', 'many_to_one', 'one_to_many', 'many_to_many'):
+		if not isinstance(expect, str) or expect not in ('one_to_one', 'many_to_one', 'one_to_many', 'many_to_many'):
 			raise SerifValueError(
-				f"Invalid expect='{expect}'. "
+				f"Invalid expect={_key_text(expect)!r}. "
 				"Must be 'one_to_one', 'many_to_one', 'one_to_many', or 'many_to_many'."
 			)
 		
